@@ -97,3 +97,144 @@ func (p *Prog) SidePairs(pkg string, keep func(file string) bool) []SidePair {
 	}
 	return out
 }
+
+// SideSum is an additive expression (a maximal chain of + and -) with at least two box-edge terms
+// (Margin/Padding/Border × Top/Bottom/Left/Right, possibly followed by .V()).
+type SideSum struct {
+	Func       string
+	Expr       ast.Expr
+	Text       string
+	Consistent bool
+	Kinds      string
+}
+
+var sideFieldRe = regexp.MustCompile(`^(Margin|Padding|Border)(Top|Bottom|Left|Right)(Width)?$`)
+
+// SideSums lists such sums. A sum is consistent when every kind of edge it mentions (margin, padding, border) appears
+// with the same set of sides: `PaddingTop + PaddingBottom + BorderTopWidth + BorderBottomWidth` and
+// `MarginLeft + PaddingLeft + BorderLeftWidth` are; `PaddingBottom + BorderTopWidth` and `… - BorderTopWidth - BorderTopWidth`
+// (where the padding has both sides) are not.
+func (p *Prog) SideSums(pkg string, keep func(file string) bool) []SideSum {
+	pk := p.ByPath[pkg]
+	if pk == nil {
+		return nil
+	}
+	var out []SideSum
+	var terms func(e ast.Expr, acc *[]ast.Expr)
+	terms = func(e ast.Expr, acc *[]ast.Expr) {
+		switch x := e.(type) {
+		case *ast.BinaryExpr:
+			if x.Op.String() == "+" || x.Op.String() == "-" {
+				terms(x.X, acc)
+				terms(x.Y, acc)
+				return
+			}
+		case *ast.ParenExpr:
+			terms(x.X, acc)
+			return
+		}
+		*acc = append(*acc, e)
+	}
+	sideField := func(e ast.Expr) (kind, side string, ok bool) {
+		if c, isCall := e.(*ast.CallExpr); isCall {
+			if sel, isSel := c.Fun.(*ast.SelectorExpr); isSel && sel.Sel.Name == "V" && len(c.Args) == 0 {
+				e = sel.X
+			}
+		}
+		sel, isSel := e.(*ast.SelectorExpr)
+		if !isSel {
+			return "", "", false
+		}
+		m := sideFieldRe.FindStringSubmatch(sel.Sel.Name)
+		if m == nil {
+			return "", "", false
+		}
+		return m[1], m[2], true
+	}
+	for _, f := range pk.Syntax {
+		name := p.Fset.Position(f.Pos()).Filename
+		if i := strings.LastIndex(name, "/"); i >= 0 {
+			name = name[i+1:]
+		}
+		if strings.HasSuffix(name, "_test.go") || (keep != nil && !keep(name)) {
+			continue
+		}
+		for _, d := range f.Decls {
+			fd, ok := d.(*ast.FuncDecl)
+			if !ok || fd.Body == nil {
+				continue
+			}
+			inner := map[ast.Expr]bool{}
+			ast.Inspect(fd.Body, func(n ast.Node) bool {
+				b, ok := n.(*ast.BinaryExpr)
+				if !ok || (b.Op.String() != "+" && b.Op.String() != "-") || inner[b] {
+					return true
+				}
+				var mark func(e ast.Expr)
+				mark = func(e ast.Expr) {
+					switch x := e.(type) {
+					case *ast.BinaryExpr:
+						if x.Op.String() == "+" || x.Op.String() == "-" {
+							inner[x] = true
+							mark(x.X)
+							mark(x.Y)
+						}
+					case *ast.ParenExpr:
+						mark(x.X)
+					}
+				}
+				mark(b)
+				var ts []ast.Expr
+				terms(b, &ts)
+				sides := map[string]map[string]int{}
+				cnt := 0
+				for _, t := range ts {
+					if k, s, ok := sideField(t); ok {
+						if sides[k] == nil {
+							sides[k] = map[string]int{}
+						}
+						sides[k][s]++
+						cnt++
+					}
+				}
+				if cnt < 2 {
+					return true
+				}
+				var sets []string
+				for k, m := range sides {
+					var ss []string
+					for s, c := range m {
+						if c > 1 {
+							s += "×2"
+						}
+						ss = append(ss, s)
+					}
+					sortStrings(ss)
+					sets = append(sets, k+":"+strings.Join(ss, ","))
+				}
+				sortStrings(sets)
+				ok2 := true
+				first := ""
+				for i, s := range sets {
+					v := s[strings.Index(s, ":")+1:]
+					if i == 0 {
+						first = v
+					} else if v != first {
+						ok2 = false
+					}
+				}
+				out = append(out, SideSum{fd.Name.Name, b, p.NodeText(b), ok2, strings.Join(sets, " ")})
+				return true
+			})
+		}
+	}
+	return out
+}
+
+func sortStrings(s []string) {
+	for i := 1; i < len(s); i++ {
+		for j := i; j > 0 && s[j] < s[j-1]; j-- {
+			s[j], s[j-1] = s[j-1], s[j]
+		}
+	}
+}
